@@ -130,8 +130,8 @@ func init() {
 		}
 	}
 	c08 := []string{"srv-req-read-close", "srv-req-close", "srv-req-close-smallpipe", "srv-two-seq", "srv-pipelined", "srv-panics", "srv-half-then-close",
-		"srv-4bytes-then-close", "srv-stray-response", "srv-hookfail-req", "srv-hookok-seq", "srv-garbage", "srv-undecodable", "srv-toobig", "srv-req-then-garbage", "srv-slow-close", "srv-halfclose", "srv-3pipelined-close"}
-	c08long := []string{"srv-refused-requests-a", "srv-refused-requests-b", "srv-hookfail-2conn"} // long scripts: delay bounding
+		"srv-4bytes-then-close", "srv-stray-response", "srv-hookfail-req", "srv-hookok-seq", "srv-garbage", "srv-undecodable", "srv-undecodable-item", "srv-undecodable-item2", "srv-undecodable-payload", "srv-undecodable-nocount", "srv-toobig", "srv-req-then-garbage", "srv-slow-close", "srv-halfclose", "srv-3pipelined-close"}
+	c08long := []string{"srv-refused-requests-a", "srv-refused-requests-b", "srv-refused-requests-c", "srv-hookfail-2conn"} // long scripts: delay bounding
 	c08multi := []string{"srv-2conn-good-bad", "srv-2conn-good-abrupt", "srv-3conn", "srv-4pipelined-read1-close"}
 	plans["C08"] = Plan{
 		Post:  mergeSeqEvidence("C08"),
@@ -139,7 +139,7 @@ func init() {
 		Rule: "all schedules (thread interleavings, select choices, timer firings) of the real kmipserver code under scripted client connections, " +
 			"within the bound given per shard; distinct = distinct (scenario, outcome) classes observed. " + boundingNote,
 		Assumptions: []string{timeAssumption, netAssumption, fifoAssumption, "a half-close is treated like a disconnect (no response required after it)"},
-		Quick:       cat(pb(100, B{{0, 0}, {1, 0}}, c08...), db(100, B{{2, 0}}, c08multi...), db(100, B{{0, 0}, {1, 0}}, "srv-size-history"), db(100, B{{1, 0}, {2, 0}}, c08long...), pb(100, B{{0, 0}}, "srv-refused-requests-b", "srv-hookfail-2conn"), db(100, B{{1, 0}, {2, 0}}, "srv-2conn-big-slow-reader")),
+		Quick:       cat(pb(100, B{{0, 0}, {1, 0}}, c08...), db(100, B{{2, 0}}, c08multi...), db(100, B{{0, 0}, {1, 0}}, "srv-size-history"), db(100, B{{1, 0}, {2, 0}}, c08long...), pb(100, B{{0, 0}}, "srv-refused-requests-b", "srv-refused-requests-c", "srv-hookfail-2conn"), db(100, B{{1, 0}, {2, 0}}, "srv-2conn-big-slow-reader")),
 		Thorough:    cat(pb(1500, B{{1, 0}, {2, 0}}, c08...), db(1500, B{{3, 0}, {4, 0}}, c08...), db(1500, B{{2, 0}, {3, 0}}, c08multi...), pb(1500, B{{0, 0}}, c08multi...), db(1500, B{{2, 0}}, "srv-size-history"), pb(1500, B{{0, 0}}, "srv-size-history"), db(1500, B{{3, 0}}, c08long...), pb(1500, B{{0, 0}, {1, 0}}, c08long...), db(1500, B{{3, 0}, {4, 0}}, "srv-2conn-big-slow-reader"), pb(600, B{{0, 0}}, "srv-2conn-big-slow-reader")),
 	}
 	plans["C08cold"] = Plan{
@@ -163,20 +163,21 @@ func init() {
 		Thorough:    cat(db(1500, B{{3, 0}, {4, 0}}, c10...), pb(1500, B{{0, 0}, {1, 0}, {2, 0}}, c10...), db(1500, B{{3, 0}}, c10mw...), pb(1500, B{{0, 0}, {1, 0}}, c10mw...)),
 	}
 	c11 := []string{"clf-negotiate-nocommon", "clf-close-during-call", "clf-close-during-call-srvclose", "clf-close-during-par", "clf-seq3", "clf-seq3-srvclose", "clf-seq3-dial", "clf-negotiate", "clf-par-2", "clf-close-only"}
+	c11drop := []string{"clf-drop-3", "clf-drop-4", "clf-drop-5"} // long scripts (up to 9 connections): small scheduling bounds
 	plans["C11"] = Plan{
 		Level: "fault_enumeration",
 		Rule: "every Read/Write of the client side of every connection (and every dial / server reply) is an environment choice point: ok, EOF, reset, closed, " +
-			"short read/write, server closes right after replying, dial refused; all placements of <= fault-bound faults x all schedules within the scheduling bound; " +
+			"short read/write, server closes right after replying, dial refused (and, outside the budget, servers that drop the request on the first 3/4/5/9 connections); all placements of <= fault-bound faults x all schedules within the scheduling bound; " +
 			"distinct = distinct (scenario, outcome) classes. " + boundingNote,
 		Assumptions: []string{timeAssumption, netAssumption, fifoAssumption, "'promptly' is decided as 'without needing any further external event' (no caller blocked forever)",
 			"a call is only required to succeed when the previous call had already failed and no fault was injected during the call itself"},
 		Keep:     hasPrefix("panic:", "deadlock:", "leak:", "fail:no-recovery", "fail:spurious-failure", "fail:retransmit", "fail:call-after-close", "fail:corrupt-response", "fail:misassociation", "fail:server-got-garbage", "fail:dial-failed"),
-		Quick:    cat(db(100, B{{0, 1}, {1, 1}, {2, 1}}, c11...), db(100, B{{0, 2}, {1, 2}}, "clf-seq3-dial", "clf-seq3-srvclose")),
-		Thorough: cat(db(1500, B{{2, 1}, {3, 1}}, c11...), db(1500, B{{0, 2}, {1, 2}}, c11...), pb(1500, B{{0, 1}}, c11...)),
+		Quick:    cat(db(100, B{{0, 1}, {1, 1}, {2, 1}}, c11...), db(100, B{{0, 2}, {1, 2}}, "clf-seq3-dial", "clf-seq3-srvclose"), db(100, B{{0, 1}, {1, 1}}, c11drop...), db(100, B{{0, 1}}, "clf-drop-9")),
+		Thorough: cat(db(1500, B{{2, 1}, {3, 1}}, c11...), db(1500, B{{0, 2}, {1, 2}}, c11...), pb(1500, B{{0, 1}}, c11...), db(1500, B{{1, 1}, {2, 1}}, c11drop...), db(1500, B{{0, 1}, {1, 1}}, "clf-drop-9"), pb(1500, B{{0, 0}}, c11drop...)),
 	}
 
 	c16one := []string{"shut-stubborn", "shut-pipelined", "shut-idle", "shut-half", "shut-fast", "shut-slow", "shut-smallpipe", "shut-hookfail", "shut-late"}
-	c16two := []string{"shut-2conn", "shut-2conn-idle-fast", "shut-twice-slow", "shut-twice-fast", "shut-closeerr-slow", "shut-closeerr-fast"}
+	c16two := []string{"shut-2conn", "shut-2conn-sameaddr", "shut-2conn-idle-fast", "shut-twice-slow", "shut-twice-fast", "shut-closeerr-slow", "shut-closeerr-fast"}
 	plans["C16"] = Plan{
 		Level: "model_checking",
 		Rule: "all schedules of Shutdown (free-running thread) against connections in each phase {connecting, idle, half request, in handler, response stuck in a 16-byte pipe, " +
